@@ -30,7 +30,10 @@ def gen_plan(rng, prop):
     tag = 2
     while len(ops) < T:
         if rng.random() < 0.4:
-            ops.append({"op": "store", "tag": tag, "rs": rng.getrandbits(48)})
+            op = {"op": "store", "tag": tag, "rs": rng.getrandbits(48)}
+            if rng.random() < 0.15:
+                op["same_object"] = True       # the caller hands over the very same dict object as last time
+            ops.append(op)
             tag += 1
         else:
             shape = wchoice(rng, [("random", 60), ("empty", 15), ("full", 15), ("single", 10)])
@@ -49,6 +52,9 @@ def gen_plan(rng, prop):
                   "call": rng.choice(["pos", "kw"])}
             if rng.random() < 0.1:
                 op["xtag"] = rng.randint(1, max(1, tag - 1))     # explain a row that is itself stored
+            if rng.random() < 0.06:
+                # many samples, the count given as a narrow NumPy integer
+                op["n"], op["n_type"] = rng.choice([(50, "int8"), (100, "uint8"), (60, "int8"), (7, "int64")])
             if cfg["rng"] == "tape":
                 op["tape"] = {"r": [rng.choice(["first", "last", "real"]) for _ in range(rng.randint(1, 3))]}
             ops.append(op)
@@ -103,6 +109,7 @@ def run_imputer_plan(plan):
 
     # configured defaults include falsy values (0, 0.0, False): "the configured default" must be used whatever it is
     falsy = [0, 0.0, False]
+    last_stored = None
     defaults = {nme: (falsy[H(seed, "dflt", j) % 3] if H(seed, "dflt?", j) % 3 == 0 else -(j + 1))
                 for j, nme in enumerate(names)}
     try:
@@ -124,7 +131,12 @@ def run_imputer_plan(plan):
                 tape.begin_op(op.get("tape"), None)
             del events[:]
             if op["op"] == "store":
-                storage.update(row(op["tag"]), ("y", op["tag"]))
+                if op.get("same_object") and last_stored is not None:
+                    storage.update(last_stored, ("y", op["tag"]))
+                    probe("same_object_stored_again")
+                else:
+                    last_stored = row(op["tag"])
+                    storage.update(last_stored, ("y", op["tag"]))
                 res["ops_run"] = i + 1
                 continue
             x = row(op["xtag"])
@@ -149,11 +161,12 @@ def run_imputer_plan(plan):
             rows_copy = [dict(r) for r in rows_before]
             ys_before = list(data[1])
             n = op["n"]
+            n_arg = getattr(__import__("numpy"), op["n_type"])(n) if op.get("n_type") else n
             try:
                 if op.get("call") == "kw":
-                    preds = imputer.impute(feature_subset=subset, x_i=x, n_samples=n)
+                    preds = imputer.impute(feature_subset=subset, x_i=x, n_samples=n_arg)
                 else:
-                    preds = imputer.impute(subset, x, n)
+                    preds = imputer.impute(subset, x, n_arg)
             except Exception as exc:  # noqa: BLE001
                 res["aborted"] = "%s: %s" % (type(exc).__name__, str(exc)[:100])
                 break
